@@ -1,7 +1,7 @@
 (** * C19: every bound the macro adds on its own is a lifetime, an absolute path, or a user-supplied trait name *)
 From Coq Require Import List String Ascii Bool Arith Lia.
 From Entrait Require Import Tok Syn Opts Split FnParams Convert Codegen Expand Proj Proj2 Proj3 ProjSide.
-From Entrait.Proofs Require Import Base Shapes PC05.
+From Entrait.Proofs Require Import Base Shapes PC05 PC07.
 From Entrait.Proofs Require PC10.
 Import ListNotations.
 Local Open Scope string_scope.
@@ -443,8 +443,10 @@ Proof.
     destruct (c19_impl_t false) as [_ P2]. rewrite P2. cbn [andb].
     exact (c19_trait_ok (eff_trait_attr v a0) _ (t_name t) (trait_tg t)).
   - destruct (c19_impl_params _ _ _ _ _ _ _ _ _ H) as (inh & im & bv & rest & -> & Hp).
+    destruct (c07_impl_expansion _ _ _ _ _ _ _ _ _ H) as (bi & fl0 & inh' & im' & r & _ & E & _ & _ & _ & _ & Ht & _).
+    injection E as <- <-.
     unfold view_C19, good. cbn [x_input]. rewrite parts_impl. unfold first_param_toks. rewrite Hp.
-    destruct (c19_impl_t bv) as [P1 P2]. rewrite P1. cbn [decided v_app v_det v_holds]. auto.
+    destruct (c19_impl_t bv) as [P1 P2]. rewrite P1. cbn [decided v_app v_det v_holds]. rewrite P2, Ht, <- app_assoc, is_prefix_app. auto.
   - destruct (c19_mod_params _ _ _ _ _ _ _ _ H) as (attrs & vs & user & tr & im & uv & tree & bv & rest & -> & Hp).
     unfold view_C19, good. cbn [x_input]. rewrite parts_mod. unfold first_param_toks. rewrite Hp.
     destruct (c19_impl_t bv) as [P1 P2]. rewrite P1. cbn [decided v_app v_det v_holds]. auto.
